@@ -137,6 +137,12 @@ impl Property for C16 {
                 if lib.funcs[k].variadic.is_some() && lib.funcs[k].params.is_empty() {
                     lib.funcs[k].params.push(PTy::Sc(c04::Sc::Int));
                 }
+                // (c) the wrapper of a function with its own calling convention has the default one,
+                //     while the binding keeps the function's
+                if lib.funcs[k].ms_abi {
+                    lib.funcs[k].ms_abi = false;
+                    out.excluded_known += 1;
+                }
                 // (b) a parameter named like the function shadows it inside the wrapper
                 let fname = lib.fname(k);
                 let clash = (0..lib.funcs[k].params.len()).any(|i| lib.pname(&lib.funcs[k], i) == fname);
@@ -368,6 +374,8 @@ impl Property for C16 {
         for l in run.stdout.lines().filter(|l| l.starts_with("BAD ")) {
             let w: Vec<&str> = l.split_whitespace().collect();
             let what = w[4.min(w.len())..].join("-");
+            let cc = (0..lib.funcs.len()).any(|k| Some(&lib.fname(k).as_str()) == w.get(1) && lib.funcs[k].ms_abi);
+            let what = if cc { "calling-convention-attribute".to_string() } else { what };
             out.fail(format!("wrapper-behaviour/{what}"), ctx(&format!("{l}\n--- wrapper source ---\n{wrap_text}")));
         }
         out.evaluations += keep.len() * 3;
